@@ -962,6 +962,8 @@ contract(
         "not-requested": "implies('post' not in self.tables, self.otf.get('post') == old(self.otf.get('post')))",
     },
     canaries={"fixed-pitch-always": f"'post' in self.tables and {_POST}.isFixedPitch == 1"},
+    # frame: the font's 'post' entry (the fields of the NEW table object are the function's own)
+    modifies=["TTFont.tbl:post"],
     globals=G,
     runtime=Runtime(_table_info_cases(), _table_build(), call=lambda fn, a: fn(a["self"])),
 )
@@ -1078,6 +1080,7 @@ contract(
         "not-requested": "implies('OS/2' not in self.tables, self.otf.get('OS/2') == old(self.otf.get('OS/2')))",
     },
     canaries={"weight-400": f"'OS/2' in self.tables and {_OS2}.usWeightClass == 400"},
+    modifies=["TTFont.tbl:OS/2"],
     locals={"selection": List(INT), "unicodes": List(INT)},
     globals=G,
     runtime=Runtime(_table_info_cases(), _table_build(), call=lambda fn, a: fn(a["self"])),
@@ -1315,6 +1318,7 @@ contract(
     params={"self": Ref("OutlineCompilerN")},
     ensures=_NAME_ENS,
     canaries={"no-family-name": f"'name' in self.tables and (1, 3, 1, 1033) not in {_KEYS}"},
+    modifies=["TTFont.tbl:name"],
     ghost_vars={"built": (Opt(Map(NKEY, STR)), "None"), "built_keys": (Set(NKEY), "set()"), "src": (Dict(NKEY, INT), "{}")},
     ghost={
         # after the first loop: the records built from the info attributes
@@ -1489,11 +1493,10 @@ cls(
 _HEAD = "self.otf['head']"
 _VMAJ, _VMIN = gi("versionMajor"), gi("versionMinor")
 _CREATED = gi("openTypeHeadCreated")
-# versionMinor zero-filled to three digits (UFO3: a non-negative integer)
-_MINOR3 = f"ite({_VMIN} < 10, '00' + str({_VMIN}), ite({_VMIN} < 100, '0' + str({_VMIN}), str({_VMIN})))"
 _HEAD_FIELDS = {
-    # "major.minor" with the minor version as three digits, read as a decimal number and kept to three places
-    "fontRevision": f"implies({_VMIN} >= 0, {_HEAD}.fontRevision == round3(decimal_value(str({_VMAJ}) + '.' + {_MINOR3})))",
+    # "major.minor" with the minor version zero-padded to three digits ('%d.%03d', Python's own formatting: library), read
+    # as a decimal number and kept to three places
+    "fontRevision": f"{_HEAD}.fontRevision == round3(decimal_value('%d.%03d' % ({_VMAJ}, {_VMIN})))",
     "unitsPerEm": f"{_HEAD}.unitsPerEm == otRound({gi('unitsPerEm')})",
     # seconds since 1904-01-01 (= seconds since 1970 + 2082844800); an unparsable date counts as 1970-01-01
     "created": f"{_HEAD}.created == (date_seconds({_CREATED}) if date_valid({_CREATED}) else 0) + 2082844800",
@@ -1504,9 +1507,7 @@ _HEAD_FIELDS = {
     "constants": f"{_HEAD}.checkSumAdjustment == 0 and {_HEAD}.tableVersion == 1.0 and {_HEAD}.magicNumber == 0x5F0F3CF5 and {_HEAD}.fontDirectionHint == 2 and {_HEAD}.indexToLocFormat == 0"
     f" and {_HEAD}.glyphDataFormat == (self.glyphDataFormat if self.has_glyphDataFormat else 0)",
 }
-# NOT registered yet: `"%d.%03d" % (major, minor)` (outlineCompiler.py:337) is outside the engine's %-formatting
-# (notes/C16.requests.md R6); head stays under observer O (bounded) until then
-_HEAD_PROPS = []
+_HEAD_PROPS = P
 
 contract(
     "ufo2ft.outlineCompiler:BaseOutlineCompiler.setupTable_head",
@@ -1518,6 +1519,7 @@ contract(
         "not-requested": "implies('head' not in self.tables, self.otf.get('head') == old(self.otf.get('head')))",
     },
     canaries={"regular": f"'head' in self.tables and {_HEAD}.macStyle == 0"},
+    modifies=["TTFont.tbl:head"],
     locals={"macStyle": List(INT)},
     models={**_DATE_MODELS, "builtins.float": _float_c16, "builtins.round": _round_c16},
     calls={f"{MOD}:intListToNum": f"{MOD}:intListToNum#0+16"},
@@ -1555,6 +1557,7 @@ def _hv_contract(tag):
             "not-requested": f"implies('{tag}' not in self.tables, self.otf.get('{tag}') == old(self.otf.get('{tag}')))",
         },
         canaries={"no-line-gap": f"'{tag}' in self.tables and {T_}.lineGap == 0"},
+        modifies=[f"TTFont.tbl:{tag}"],
         locals={"advances": List(INT), "firstSideBearings": List(INT), "secondSideBearings": List(INT), "extents": List(INT), "numLongMetrics": INT},
         loops={
             "for glyphName in self.glyphOrder": Loop(index="i", invariants={"adv": "len(advances) >= 0"}),
